@@ -3,7 +3,8 @@
 // type of Sig(d) x the identifier hygiene set is generated with the
 // repository's generator built from the current tree, type-checked alone and
 // assembled, compiled, and driven through a real in-process server with every
-// boundary value.
+// boundary value (drv.Vals) and, for signals and properties, through the
+// subscriber histories of one session (drv.histories).
 package main
 
 import (
@@ -259,9 +260,23 @@ func attribute(raw []rawFail, atoms []*atom, driven map[string]int) []string {
 			}
 			nFail[r.key()][r.a.id+"/"+r.action] = true
 		}
+		// actions of a kind that fail in any way: an action that fails
+		// otherwise may never reach the step where the others fail (the
+		// subscriber histories run only after a clean one-subscriber run)
+		anyFail := map[string]map[string]bool{}
 		for k, set := range nFail {
 			kind := strings.Split(k, "|")[0]
-			if driven[kind] >= 5 && len(set) >= driven[kind] {
+			if anyFail[kind] == nil {
+				anyFail[kind] = map[string]bool{}
+			}
+			for a := range set {
+				anyFail[kind][a] = true
+			}
+		}
+		for k, set := range nFail {
+			kind := strings.Split(k, "|")[0]
+			others := len(anyFail[kind]) - len(set)
+			if driven[kind] >= 5 && len(set)+others >= driven[kind] && others*10 <= driven[kind] {
 				allOfKind[k] = true
 			}
 		}
@@ -554,8 +569,8 @@ func main() {
 			"small-scope hypothesis over programs: every action kind x every type of the stated universe x the identifier hygiene set, one atom at a time, then all compiling atoms together; interplay of more than the listed colliding pairs is only covered through the assembled packages",
 			"'compiles' is decided by go/types on the generated file alone per atom (export data of the current tree) and by `go build` of the assembled packages",
 			"Go names of actions are obtained from the repository's own naming functions (MetaObject.ForEachMethodAndSignal, signature.CleanMethodName/CleanName); constructors and the service name are discovered from the generated code by shape",
-			"values: per-type boundary sets (DESIGN.md 1.1), argument tuples one position at a time plus the diagonal; object-typed parameters are not driven",
-			"sequential calls on a real in-process directory server over a unix socket under .work/c05; waits of 20 s",
+			"values: per-type boundary sets (DESIGN.md 1.1) plus the shrinking / equal-size lists of containers, argument tuples one position at a time plus the diagonal; object-typed parameters are not driven",
+			"sequential calls, emissions, subscriptions and cancellations from one goroutine on one session of a real in-process directory server over a unix socket under .work/c05 (interleavings of concurrent subscribers are C13's); waits of 20 s; a surplus copy of the last emission of a history is only seen if it arrives within the silence window",
 		}))
 	}
 	imp, err := loadDeps(root, c.overlay)
@@ -701,11 +716,18 @@ func main() {
 	drivenKind := map[string]int{}
 	var samples []interface{}
 	notDriven := 0
-	driveBudget := 60 * time.Second
+	// the budget bounds the driving phase only (generation and go build take
+	// 6 s on an idle machine and minutes on a loaded one); running out of it is
+	// reported as an engine error, never as a pass
+	driveBudget := 4 * time.Minute
 	if tier == "thorough" {
-		driveBudget = 11 * time.Minute
+		driveBudget = 25 * time.Minute
 	}
-	deadline := start.Add(driveBudget)
+	deadline := time.Now().Add(driveBudget)
+	nested := map[string]int{}         // position -> value cases carrying a list of containers with decreasing / equal inner sizes
+	nestedClasses := map[string]bool{} // position|class
+	histories, historyEvents := 0, 0   // subscriber histories executed, emissions made in them
+	historyActions := map[string]int{} // kind -> actions whose subscriber histories were driven
 	const shards = 4
 	var omu sync.Mutex
 	var dwg sync.WaitGroup
@@ -756,6 +778,15 @@ func main() {
 						drivenKind[r.Kind]++
 						if r.Cases > 0 {
 							drivenClasses[r.Kind+"|"+a.class] = true
+						}
+						for pos, n := range r.Nested {
+							nested[pos] += n
+							nestedClasses[pos+"|"+a.class] = true
+						}
+						histories += r.Histories
+						historyEvents += r.HistoryEvents
+						if r.Histories > 0 {
+							historyActions[r.Kind]++
 						}
 						if r.Sample != "" && len(samples) < 12 && (driven%17 == 1 || len(samples) < 4) {
 							samples = append(samples, map[string]interface{}{"action": r.Kind + " " + r.IDLName, "class": a.class, "case": r.Sample, "cases": r.Cases, "violations": len(r.Violations)})
@@ -823,6 +854,9 @@ func main() {
 	dwg.Wait()
 	if driven < expected {
 		notDriven += expected - driven
+	}
+	if deadlineHit {
+		chk.EngineError("the driving budget of %v ran out: %d of %d actions were not driven (machine overloaded?); the run proves nothing about them", driveBudget, expected-driven, expected)
 	}
 	// ---- 5. attribution: blame the smallest failing component
 	for i := range observations {
@@ -956,12 +990,14 @@ func main() {
 	total := len(atoms)
 	exhaustive := notDriven == 0 && !deadlineHit
 	cov := map[string]interface{}{
-		"evaluations":         cases + total,
+		"evaluations":         cases + total + historyEvents,
 		"distinct_nontrivial": len(drivenClasses),
-		"rule": "programs: atoms = {echo method, 1-parameter signal, property} x every type of the universe (all 13 scalars; Vec<s>, Map<str,s>, Map<k,int32> for every scalar / key type, tuples, structs, enum; thorough: Vec<t>, Map<str,t>, Map<int32,t> for every depth-1 container t over every scalar, tuples, structs, enum; nested tuples and structs), " +
+		"rule": "programs: atoms = {echo method, 1-parameter signal, property} x every type of the universe (all 13 scalars; Vec<s>, Map<str,s>, Map<k,int32> for every scalar / key type, tuples, structs, enum; the lists of containers Vec<Vec<int32>>, Vec<Map<str,int32>>, Vec<Lst> with struct Lst{n: int32; l: Vec<int32>}; thorough: Vec<t>, Map<str,t>, Map<int32,t> for every depth-1 container t over every scalar, tuples, structs, enum; nested tuples and structs), " +
 			"action kinds (methods of 0..3 parameters, void or not, signals of 0/2/3 parameters, 2-parameter property), identifier hygiene (Go keywords, predeclared names, the generator's own locals and imported package names as parameter names, reserved and keyword method names, struct member names, interface names) and pairs of colliding names. " +
 			"Each atom is generated and type-checked alone; the compiling ones are assembled (<=110 per package), compiled with go build and every action is driven with every boundary value (methods: argument tuples one position at a time + diagonal, every return value; signals: every payload through Signal<X> to Subscribe<X>; properties: Set/Get/On<X>Change/Subscribe for every value). " +
-			"evaluations = atoms given a verdict + value cases executed; distinct_nontrivial = distinct (action kind, type or hygiene class) pairs whose generated code compiled and was driven with at least one value case",
+			"Boundary values of a list type are: empty, one item, two items, every boundary value of the item type once; and when the item type is a list, a map or a struct holding one (at any depth): three items whose inner containers have 3, 2, 1 entries and three items whose inner containers have 2, 2, 2 entries (fewer where a bool key allows only 2), scalars numbered consecutively so that all contents are pairwise distinct ([[1,2,3],[4,5],[6]]); these occur as return values, arguments, signal payloads and property values (nested_list_cases counts them by position). " +
+			"Subscriber histories on the driver's single session, for every signal and every property whose one-subscriber run was clean: {A alone: every payload}; {A and B together, 3 emissions, both receive each exactly once, cancel B, cancel A}; {subscribe A, subscribe B, cancel A, emit (B receives it once), cancel B, subscribe C, emit 2: C receives each exactly once}; {the same with B cancelled before A}; cancellations are awaited; oracle: the sequence received equals the sequence emitted while subscribed - equal payloads, same order, exactly one copy per emission per subscriber (a copy of any emission but the last one of a history is recognised by order, a surplus after the last one by 40 ms of silence, 300 ms for signals whose emissions are indistinguishable). " +
+			"evaluations = atoms given a verdict + value cases executed + emissions made in subscriber histories; distinct_nontrivial = distinct (action kind, type or hygiene class) pairs whose generated code compiled and was driven with at least one value case",
 		"samples":                               samples,
 		"exhaustive":                            exhaustive,
 		"atoms":                                 total,
@@ -973,6 +1009,11 @@ func main() {
 		"actions_driven":                        driven,
 		"value_cases":                           cases,
 		"oracle_checks":                         checks,
+		"nested_list_cases":                     nested,
+		"nested_list_classes":                   sortedKeys(nestedClasses),
+		"subscriber_histories":                  histories,
+		"subscriber_history_emissions":          historyEvents,
+		"actions_with_subscriber_histories":     historyActions,
 		"types_in_universe":                     len(typeUniverse(map[string]int{"quick": 1, "thorough": 2}[tier])),
 		"actions_not_driven":                    notDriven,
 		"deadline_hit":                          deadlineHit,
@@ -983,6 +1024,15 @@ func main() {
 	}
 	_ = start
 	finish(cov)
+}
+
+func sortedKeys(m map[string]bool) []string {
+	out := []string{}
+	for k := range m {
+		out = append(out, k)
+	}
+	sort.Strings(out)
+	return out
 }
 
 func classesOf(as []*atom) []string {
